@@ -23,6 +23,7 @@ use std::sync::Arc;
 
 use glob::{glob, Paths};
 use libfs::is_same_file;
+use libfs::is_dir_checked;
 use libxcp::config::{Config, Reflink};
 use libxcp::drivers::load_driver;
 use libxcp::errors::{Result, XcpError};
@@ -106,7 +107,7 @@ fn main() -> Result<()> {
     let sources = expand_sources(source_patterns, &opts)?;
     if sources.is_empty() {
         return Err(XcpError::InvalidSource("No source files found.").into());
-    } else if !dest.is_dir() {
+    } else if !is_dir_checked(&dest)? {
         if sources.len() == 1 && sources[0].is_dir() && dest.exists() {
             return Err(XcpError::InvalidDestination("Cannot copy a directory to a file.").into());
         } else if sources.len() > 1 {
@@ -133,7 +134,7 @@ fn main() -> Result<()> {
             .next_back()
             .ok_or(XcpError::InvalidSource("Failed to find source directory name."))?;
 
-        let target_base = if dest.exists() && dest.is_dir() && !opts.no_target_directory {
+        let target_base = if is_dir_checked(&dest)? && !opts.no_target_directory {
             dest.join(sourcedir)
         } else {
             dest.to_path_buf()
